@@ -139,7 +139,7 @@ def api_clause(prior_ops, multi_task, had_other):
             touched.add(f)
             if k == 'COMPUTE':
                 ncomp += 1
-            elif k in ('FAR', 'NEAR'):
+            elif k in ('FAR', 'NEAR', 'FAR_BAD', 'NEAR_BAD'):
                 nfield += 1
             elif k.startswith('OBS'):
                 nobs += 1
